@@ -1006,3 +1006,22 @@ pub(crate) fn retry_if_interrupted(mut f: impl FnMut() -> isize) -> io::Result<i
         }
     }
 }
+
+/// Verification hook: the control-message length `prepare_msg` produces for a transmit, and
+/// `effective_segment_size`, without sending anything.
+#[cfg(all(feature = "quinn_rs_quinn_verif", not(apple_fast)))]
+pub fn verif_control_len(transmit: &Transmit<'_>, sendmsg_einval: bool) -> (usize, Option<usize>) {
+    let dst_addr = socket2::SockAddr::from(transmit.destination);
+    let mut hdr: libc::msghdr = unsafe { mem::zeroed() };
+    let mut iov: libc::iovec = unsafe { mem::zeroed() };
+    let mut ctrl = cmsg::Aligned([0u8; cmsg::LEN]);
+    prepare_msg(transmit, &dst_addr, &mut hdr, &mut iov, &mut ctrl, true, sendmsg_einval);
+    #[allow(clippy::unnecessary_cast)]
+    (hdr.msg_controllen as usize, transmit.effective_segment_size())
+}
+
+/// Verification hook: size of the control buffer and `CMSG_SPACE` of a payload size
+#[cfg(feature = "quinn_rs_quinn_verif")]
+pub fn verif_cmsg_consts(payload: usize) -> (usize, usize) {
+    (cmsg::LEN, unsafe { libc::CMSG_SPACE(payload as _) } as usize)
+}
